@@ -586,6 +586,6 @@ var _ = errors.New
 
 func main() {
 	hmain.Run(&hmain.Prop{ID: "C12",
-		Rule: "per scanner (cri, postgres, nginx_error, syslog_rfc3164, syslog_rfc5424, csv): exhaustive = every concatenation of up to N tokens of the format's delimiter alphabet, plus every truncation of canonical valid lines followed by every short token sequence; faithful = lines assembled from random well-formed fields; damaged = valid lines with random deletions/insertions of delimiters; nonascii = same with UTF-8 / invalid bytes (totality only); json-cut = json_max_fields_size on generated documents with encoding/json validity before/after. Non-trivial = input of >= 3 bytes for plain enumeration, every other case; distinct = distinct (sub-model, case) text.",
+		Rule: "per scanner (cri, postgres, nginx_error, syslog_rfc3164, syslog_rfc5424, csv): exhaustive = every concatenation of up to N tokens of the format's delimiter alphabet, plus every truncation of canonical valid lines followed by every short token sequence; faithful = lines assembled from random well-formed fields; damaged = valid lines with random deletions/insertions of delimiters; nonascii = same with UTF-8 / invalid bytes (totality only); json-cut = json_max_fields_size on generated documents with encoding/json validity before/after; json-cut-shared-decoder = the same with ONE decoder used by 6 goroutines at once (150 repetitions per line; a replay of such a case runs alone). Non-trivial = input of >= 3 bytes for plain enumeration, every other case; distinct = distinct (sub-model, case) text.",
 		Gen:  c12Gen, Exec: c12Exec})
 }
